@@ -294,7 +294,11 @@ class MemTermsReader(base.TermsReader):
     def matcher(self, fieldname, btext, format_, scorer=None):
         items = self._invindex[fieldname][btext]
         ids, weights, values = zip(*items)
-        return ListMatcher(ids, weights, values, format_, scorer=scorer)
+        # The block quality methods of the matcher (used by limited, scored
+        # searches) read the term's statistics
+        return ListMatcher(ids, weights, values, format_, scorer=scorer,
+                           term=(fieldname, btext),
+                           terminfo=self._segment._terminfos[fieldname, btext])
 
     def indexed_field_names(self):
         return self._invindex.keys()
